@@ -1,8 +1,9 @@
 (* Extraction of the PDB-family model. ExtrOcamlBasic only: Z/positive/nat stay Coq datatypes. *)
 From Coq Require Extraction ExtrOcamlBasic.
-From GV Require Import Base.Str Pdb.Hy36 Pdb.Records Pdb.AtomSite Pdb.Subchain Pdb.AtomLine.
+From GV Require Import Base.Str Pdb.Hy36 Pdb.Records Pdb.AtomSite Pdb.Subchain Pdb.AtomLine Pdb.CcdAlias.
 Extraction Blacklist String List Nat.
 Extraction "pdb.ml"
   encode_serial field5 read_serial write_seq_id read_seq_id base36_encode read_int read_string read_charge
   copy_line next_line parse_records run_raw empty_pst zero_buf
-  to_rows of_rows model_names atom_line read_atom.
+  to_rows of_rows model_names atom_line read_atom
+  shorten_table apply_shorten apply_restore.
